@@ -33,7 +33,8 @@ func class(s string) string {
 // the last group is legal Go that a plugin may well support: then exit 0 with a well-typed package is the
 // clean ending, and anything else has to be a diagnostic
 var unsupportedKinds = []string{"chan", "func", "iface", "unsafeptr", "ustruct",
-	"ustruct1", "ustruct1c", "ustruct0", "ustructblank", "blankfield", "blankonly"}
+	"ustruct1", "ustruct1c", "ustruct0", "ustructblank", "blankfield", "blankonly",
+	"ptrint", "ptrkeystruct", "ustructtag", "recvchan", "sendchan"}
 var positions = []string{"top", "field", "elem", "value", "ptr", "key", "arrayelem", "nested"}
 var typedPlugins = []string{"equal", "equalc", "compare", "hash", "deepcopy", "clone", "gostring", "keys", "sort", "minl", "maxt", "contains", "unique", "set", "unionl", "intersectm", "filter", "mem", "fmap", "join", "tuple", "traverse"}
 
@@ -55,6 +56,16 @@ func unsupported(kind string) *progen.Type {
 		return &progen.Type{Kind: progen.UStruct}
 	case "ustructblank":
 		return &progen.Type{Kind: progen.UStruct, Fields: []progen.Field{{Name: "A", Type: progen.B("int")}, {Name: "_", Type: progen.B("int")}, {Name: "B", Type: progen.SliceOf(progen.B("string"))}}}
+	case "ptrint": // legal as a map key (compared by identity), not copyable by assignment
+		return progen.PtrTo(progen.B("int"))
+	case "ptrkeystruct":
+		return progen.NamedT(&progen.Decl{Name: "PKey", IsStruct: true, Fields: []progen.Field{{Name: "A", Type: progen.B("int")}, {Name: "P", Type: progen.PtrTo(progen.B("int"))}}})
+	case "ustructtag":
+		return &progen.Type{Kind: progen.UStruct, Text: "struct {\n\tA int `json:\"a\"`\n\tB []int\n}", Fields: []progen.Field{{Name: "A", Type: progen.B("int")}, {Name: "B", Type: progen.SliceOf(progen.B("int"))}}}
+	case "recvchan":
+		return &progen.Type{Kind: progen.Chan, Text: "<-chan int"}
+	case "sendchan":
+		return &progen.Type{Kind: progen.Chan, Text: "chan<- int"}
 	case "blankfield":
 		return progen.NamedT(&progen.Decl{Name: "Blank", IsStruct: true, Fields: []progen.Field{{Name: "A", Type: progen.B("int")}, {Name: "_", Type: progen.B("int")},
 			{Name: "B", Type: progen.SliceOf(progen.B("string"))}, {Name: "_", Type: progen.B("string")}}})
@@ -72,6 +83,8 @@ func kindDecl(kind string) string {
 		return "type Blank struct {\n\tA int\n\t_ int\n\tB []string\n\t_ string\n}\n\n"
 	case "blankonly":
 		return "type BlankOnly struct {\n\t_ int\n}\n\n"
+	case "ptrkeystruct":
+		return "type PKey struct {\n\tA int\n\tP *int\n}\n\n"
 	}
 	return ""
 }
@@ -84,7 +97,13 @@ type faultCase struct {
 	unsupportedArg          bool
 }
 
-func goKeyOK(kind string) bool { return kind == "chan" || kind == "iface" || kind == "unsafeptr" }
+func goKeyOK(kind string) bool {
+	switch kind {
+	case "chan", "iface", "unsafeptr", "ptrint", "ptrkeystruct", "recvchan", "sendchan", "ustruct1c", "ustruct0", "blankonly":
+		return true
+	}
+	return false
+}
 
 // place puts the unsupported type at a position and returns the argument type.
 func place(t *rapid.T, p *progen.Prog, u *progen.Type, pos string, n int) (*progen.Type, string) {
@@ -241,6 +260,23 @@ var misuses = []misuse{
 	{"variadic", "join", "deriveJoinX(func(a ...int) (int, error) { return 0, nil }, nil)"},
 	{"variadic", "dup", "deriveDupX(make(chan func(...int)))"},
 	{"variadic", "tuple", "deriveTupleX(func(a ...int) {}, 1)"},
+	{"chan-direction", "dup", "deriveDupX(make(chan<- int))"},
+	{"chan-direction", "fmap", "deriveFmapX(func(int) string { return \"\" }, make(chan<- int))"},
+	{"chan-direction", "join", "deriveJoinX([]chan<- int{})"},
+	{"chan-direction", "join", "deriveJoinX(make(chan<- int), make(chan<- int))"},
+	{"chan-direction", "join", "deriveJoinX(make(chan<- (<-chan int)))"},
+	{"chan-of-recvchan", "dup", "deriveDupX(make(<-chan (<-chan int)))"},
+	{"chan-of-recvchan", "dup", "deriveDupX(make(chan (<-chan int)))"},
+	{"chan-of-recvchan", "fmap", "deriveFmapX(func(c <-chan int) <-chan int { return c }, make(chan (<-chan int)))"},
+	{"chan-of-recvchan", "join", "deriveJoinX([]<-chan (<-chan int){})"},
+	{"chan-of-recvchan", "join", "deriveJoinX(make(<-chan (<-chan (<-chan int))))"},
+	{"chan-of-recvchan", "pipeline", "derivePipelineX(func(int) <-chan (<-chan int) { return nil }, func(<-chan int) <-chan string { return nil })"},
+	{"chan-of-sendchan", "dup", "deriveDupX(make(chan (chan<- int)))"},
+	{"chan-of-bidirchan", "join", "deriveJoinX(make(chan chan int))"},
+	{"chan-of-bidirchan", "join", "deriveJoinX(make(<-chan chan int))"},
+	{"chan-of-bidirchan", "join", "deriveJoinX([]chan chan int{})"},
+	{"chan-of-bidirchan", "dup", "deriveDupX(make(chan chan int))"},
+	{"chan-of-bidirchan", "fmap", "deriveFmapX(func(c chan int) chan int { return c }, make(chan chan int))"},
 	{"noerror", "compose", "deriveComposeX(func() (int, string) { return 0, \"\" }, func(int) (int, error) { return 0, nil })"},
 	{"noerror", "traverse", "deriveTraverseX(func(int) (int, int) { return 0, 0 }, []int{})"},
 	{"noerror", "do", "deriveDoX(func() (int, int) { return 0, 0 }, func() (int, error) { return 0, nil })"},
@@ -270,6 +306,12 @@ var brokenUser = []struct{ name, src string }{
 	{"undefined-type-chan-elem", "package p\n\nfunc u(a <-chan NoSuch) { deriveDupX(a) }\n"},
 	{"undefined-type-func-param", "package p\n\nfunc u(f func(NoSuch) bool, l []int) { deriveFilterX(f, l) }\n"},
 	{"undefined-type-func-result", "package p\n\nfunc u(f func(int) NoSuch, l []int) { deriveFmapX(f, l) }\n"},
+	{"undefined-type-slice-field-clone", "package p\n\ntype T struct{ F []NoSuch }\n\nfunc u(a *T) { deriveCloneX(a) }\n"},
+	{"undefined-type-map-field-deepcopy", "package p\n\ntype T struct{ F map[string]NoSuch }\n\nfunc u(a, b *T) { deriveDeepCopyX(a, b) }\n"},
+	{"undefined-type-slice-field-hash", "package p\n\ntype T struct{ F []NoSuch }\n\nfunc u(a *T) { deriveHashX(a) }\n"},
+	{"undefined-type-ptr-field-compare", "package p\n\ntype T struct{ F *NoSuch }\n\nfunc u(a, b *T) { deriveCompareX(a, b) }\n"},
+	{"undefined-type-array-field-gostring", "package p\n\ntype T struct{ F [2]NoSuch }\n\nfunc u(a *T) { deriveGoStringX(a) }\n"},
+	{"undefined-type-field-of-elem-equal", "package p\n\ntype T struct{ F map[string]NoSuch }\n\nfunc u(a, b []T) { deriveEqualX(a, b) }\n"},
 	{"undefined-type-struct-field", "package p\n\ntype T struct{ F NoSuch }\n\nfunc u(a, b T) { deriveEqualX(a, b) }\n"},
 	{"undefined-type-field-of-map-key", "package p\n\ntype K struct{ F NoSuch }\n\nfunc u(a map[K]int) { deriveKeysX(a) }\n"},
 	{"undefined-package-qualified-type", "package p\n\nfunc u(a map[nosuch.T]int) { deriveKeysX(a) }\n"},
